@@ -803,17 +803,18 @@ impl<'a, EntryType: Entry> PathSolution<'a, EntryType> {
                 .expect("valid path encoding should always produce a valid view"),
         );
 
-        let start_ia = interfaces
-            .first()
-            .expect("edges are checked to be not empty")
-            .interface
-            .isd_asn;
+        // Every traversed link contributes its two interfaces. Segments with missing (zero)
+        // interface ids can yield an empty or odd interface list; such a solution does not
+        // describe a usable path and is skipped.
+        let (Some(first), Some(last)) = (interfaces.first(), interfaces.last()) else {
+            return Ok(None);
+        };
+        if interfaces.len() % 2 != 0 {
+            return Ok(None);
+        }
 
-        let end_ia = interfaces
-            .last()
-            .expect("edges are checked to be not empty")
-            .interface
-            .isd_asn;
+        let start_ia = first.interface.isd_asn;
+        let end_ia = last.interface.isd_asn;
 
         let metadata = PathMetadata {
             expiration: expiration.into(),
